@@ -8,6 +8,7 @@ mod model;
 mod ops;
 mod sessions;
 mod sweep;
+mod text;
 mod tz;
 mod util;
 
@@ -26,6 +27,9 @@ fn main() {
         "record-cron" => cron::record(&args[2..]),
         "record-tz" => tz::record(&args[2..]),
         "fuzz-tz" => tz::fuzz(&args[2..]),
+        "record-text" => text::record(&args[2..]),
+        "observe" => text::observe(&args[2..]),
+        "families" => text::families(&args[2..]),
         "local-resolve" => tz::local_resolve(),
         "tz-abstract" => tz::abstract_of(&args[2..]),
         "tz-hostile-bytes" => tz::hostile_bytes(&args[2..]),
